@@ -97,6 +97,8 @@ func hasProp(props []string, p string) bool {
 	return false
 }
 
+var budgetOverride int
+
 func cmdCheck(args []string) {
 	t0 := time.Now()
 	prop, tier := "", "quick"
@@ -111,6 +113,9 @@ func cmdCheck(args []string) {
 			tier = args[i]
 		case "--gen-claims":
 			genClaims = true
+		case "--budget":
+			i++
+			fmt.Sscanf(args[i], "%d", &budgetOverride)
 		}
 	}
 	if t := os.Getenv("VERIF_TIER"); t != "" && tier == "" {
@@ -149,6 +154,9 @@ func cmdCheck(args []string) {
 	if tier == "thorough" {
 		budget = 120
 	}
+	if budgetOverride > 0 {
+		budget = budgetOverride
+	}
 	var results []*FuncResult
 	var driftHere []string
 	for _, ct := range cs.List {
@@ -163,6 +171,9 @@ func cmdCheck(args []string) {
 			continue
 		}
 		if ct.Trusted {
+			continue
+		}
+		if ct.ThoroughOnly && tier != "thorough" && !genClaims {
 			continue
 		}
 		results = append(results, verifyContract(l, cs, ct))
@@ -387,6 +398,11 @@ func writeClaims(prop string, results []*FuncResult) {
 			}
 			total++
 			good := (o.Result == "proved" || o.Result == "sat-ok") && o.TimeS < 8
+			if good && r.Contract != nil && r.Contract.ThoroughOnly {
+				fl = append(fl, "thorough "+o.Name)
+				ok++
+				continue
+			}
 			if o.Result == "known-finding" {
 				good = true
 			}
